@@ -43,6 +43,26 @@ def intlike(x):
     return isinstance(x, (int, SymInt)) and not isinstance(x, bool)
 
 
+class twin:
+    """with twin(ctx): statements re-draw the SAME variables (by name) as the
+    statements that ran since the matching mark: used to run one call on two
+    equal networks with identical symbolic arguments."""
+
+    def __init__(self, ctx, seq_mark):
+        self.ctx = ctx
+        self.mark = seq_mark
+
+    def __enter__(self):
+        self.saved = (dict(self.ctx.seq), self.ctx.reuse)
+        self.ctx.seq = dict(self.mark)
+        self.ctx.reuse = True
+        return self
+
+    def __exit__(self, *a):
+        self.ctx.seq, self.ctx.reuse = self.saved
+        return False
+
+
 def build_H(ctx, shape, cls=None, fresh=True, attrs=False, str_labels=False, tag="", order=None):
     """An arbitrary Hypergraph (or SimplicialComplex) state of the given shape.
     attrs: give nodes/edges/network symbolic attribute values."""
